@@ -493,4 +493,10 @@ example : ((get exRun 0).map fun r => (r.delivered.map (·.tag), r.discarded, r.
     some ([10, 11], 1, false) := by decide
 example : ((get exRun 1).map fun r => (r.delivered.map (·.tag), r.discarded)) = some ([13], 0) := by decide
 
+-- MPEG-4 Video (format 3): tag 4 carries configuration 2 in-band, tag 5 starts with a GOV and must be delivered
+-- with that configuration in front (C22's model), tag 7 is a plain VOP and passes unaltered
+example : (C22.stepM4V [] (writtenM4V 4)) = ([0, 0, 1, 0xB0, 2], writtenM4V 4) := by decide
+example : (C22.stepM4V [0, 0, 1, 0xB0, 2] (writtenM4V 5)).2 = [0, 0, 1, 0xB0, 2] ++ writtenM4V 5 := by decide
+example : (C22.stepM4V [0, 0, 1, 0xB0, 2] (writtenM4V 7)).2 = writtenM4V 7 := by decide
+
 end MtxVerif.C17
